@@ -1,11 +1,12 @@
 #!/bin/bash
-# Runs the repository's test suite (guard off) in a private mount namespace so that concurrent
-# runs do not collide on the fixed /dev/shm and /tmp paths the tests use.
+# Runs the repository's test suite (guard off) in a private mount AND network namespace so that concurrent
+# runs do not collide on the fixed /dev/shm and /tmp paths and on the fixed TCP ports (:7777, :29998) the tests use.
 # usage: runtests.sh [dir] [go test args...]
 DIR="${1:-/repo}"; shift
 export GOFLAGS=-mod=mod GOPROXY=off GOSUMDB=off GOTOOLCHAIN=local
-exec unshare -m bash -c '
+exec unshare -m -n bash -c '
   D="$1"; shift
+  ip link set lo up 2>/dev/null || ifconfig lo up 2>/dev/null
   mount -t tmpfs tmpfs /dev/shm && mkdir /dev/shm/.wt && mount --bind "$D" /dev/shm/.wt &&
   mount -t tmpfs tmpfs /tmp && mkdir -p "$D" 2>/dev/null; 
   case "$D" in /tmp/*) mkdir -p "$D" && mount --bind /dev/shm/.wt "$D";; esac
